@@ -89,6 +89,64 @@ func c06(c *engine.Ctx) {
 	c06Wiring(c)
 	c06V1(c)
 	c06Bind(c)
+	c06Inner(c)
+	c06Pure(c)
+}
+
+// c06Inner: bind_auth_key_inner#75a3f765 nonce:long temp_auth_key_id:long
+// perm_auth_key_id:long temp_session_id:long expires_at:int — writer and reader
+// must both follow this order (a consistent swap on both sides round-trips but
+// is not what the server reads).
+func c06Inner(c *engine.Ctx) {
+	want := "ID(0x75a3f765) Long:Nonce Long:TempAuthKeyID Long:PermAuthKeyID Long:TempSessionID Int:ExpiresAt"
+	for _, spec := range []struct {
+		name   string
+		writer bool
+	}{{"BindAuthKeyInner.Encode", true}, {"BindAuthKeyInner.Decode", false}} {
+		fn := c.MustFunc("C06.R5", "crypto", spec.name)
+		if fn == nil {
+			continue
+		}
+		ops, err := engine.WireOps(fn, fn.Params[0], fn.Params[1], spec.writer)
+		if err != nil {
+			c.Undecided("C06.R5", spec.name+"/wire-order", fn.Pos(), "%v", err)
+			continue
+		}
+		var got []string
+		for _, o := range ops {
+			s := o.Kind
+			if o.Field != "" {
+				s += ":" + o.Field
+			}
+			got = append(got, s)
+		}
+		c.Check(strings.Join(got, " ") == want, "C06.R5", spec.name+"/wire-order", fn.Pos(), "bind_auth_key_inner is laid out as [%s], specification [%s]", strings.Join(got, " "), want)
+	}
+}
+
+// c06Pure: key derivation must be a function of its arguments only — no
+// package-level variable may be read or written by the KDF functions (a shared
+// scratch buffer makes concurrent derivations corrupt each other's keys).
+func c06Pure(c *engine.Ctx) {
+	n := 0
+	for _, name := range []string{"msgKeyLarge", "messageKey", "MessageKey", "sha256a", "sha256b", "aesKey", "aesIV", "Keys", "getX",
+		"sha1a", "sha1b", "sha1c", "sha1d", "KeysV1", "MessageKeyV1", "OldKeys"} {
+		fn := c.Func("crypto", name)
+		if fn == nil {
+			continue
+		}
+		n++
+		var globals []string
+		engine.Instrs(fn, func(i ssa.Instruction) {
+			for _, op := range i.Operands(nil) {
+				if g, ok := (*op).(*ssa.Global); ok {
+					globals = append(globals, g.Name())
+				}
+			}
+		})
+		c.Check(len(globals) == 0, "C06.R6", name+"/no-package-state", fn.Pos(), "key derivation must depend on its arguments only; it touches package-level variables %v", globals)
+	}
+	c.Floor("C06.R6", 10, n)
 }
 
 func normCopy(cp engine.Copy) string {
